@@ -1145,6 +1145,22 @@ fn spawn_fake_peers(sock: &std::path::Path, rsock: &std::path::Path) -> std::syn
                             vec![json!({"parameters": {"description": format!("described by {}", which)}})]
                         } else if method.ends_with(".GetInfo") {
                             vec![json!({"parameters": {"vendor": which, "product": "fake", "version": "1", "url": "http://example.org", "interfaces": ["org.varlink.service"]}})]
+                        } else if req["upgrade"] == json!(true) && (method.ends_with(".Up") || method.ends_with(".UpClose")) {
+                            // upgraded echo protocol: answer the request, then read ONE line of the upgraded protocol (3 s) and answer `UP:<line>`; close
+                            let _ = w.write_all(b"{}\0");
+                            let _ = r.get_ref().set_read_timeout(Some(Duration::from_millis(3000)));
+                            let mut line = Vec::new();
+                            let _ = r.read_until(b'\n', &mut line);
+                            seen.lock().unwrap().push((which.to_string(), format!("upgraded-saw {}", String::from_utf8_lossy(&line))));
+                            let _ = w.write_all(b"UP:");
+                            let _ = w.write_all(&line);
+                            if method.ends_with(".Up") {
+                                // keep the connection until the peer is done (up to 3 s): this script is about the hand-over, not about closing
+                                let mut rest = Vec::new();
+                                let _ = r.read_to_end(&mut rest);
+                            }
+                            let _ = w.shutdown(std::net::Shutdown::Both);
+                            return;
                         } else if method.ends_with(".StreamCut") {
                             // one announced-to-continue reply, then the peer hangs up: the expected final reply never arrives
                             let mut out = serde_json::to_vec(&json!({"continues": true, "parameters": {"n": 1}})).unwrap(); out.push(0);
@@ -1541,6 +1557,35 @@ fn search_bridge(obs: &[&str]) {
     // direct-connection mode: `varlink bridge --connect <address of the service>`: two requests, then the client closes its side
     {
         explored += 1;
+    // upgrade through the resolver-mode bridge: the upgrade request and the first line of the upgraded protocol in ONE write; the client must get exactly what the
+    // service sends when talked to directly: `{}` NUL `UP:hello\n` (the line reaches the service, it is not echoed back to the client)
+    for (one_write, method, class) in [(true, "org.example.Up", "upgrade-forward"), (false, "org.example.Up", "upgrade-forward"),
+                                       (true, "org.example.UpClose", "close-drain"), (true, "org.example.UpClose", "close-drain"), (true, "org.example.UpClose", "close-drain")] {
+        explored += 1;
+        seen.lock().unwrap().clear();
+        let mut child = match std::process::Command::new(&bin).arg("--resolver").arg(format!("unix:{}", rsock.display())).arg("bridge")
+            .stdin(std::process::Stdio::piped()).stdout(std::process::Stdio::piped()).stderr(std::process::Stdio::null()).spawn() { Ok(c) => c, Err(_) => continue };
+        let mut stdin = child.stdin.take().unwrap();
+        let mut stdout = child.stdout.take().unwrap();
+        let reqb = format!("{{\"method\":\"{}\",\"upgrade\":true}}\0", method).into_bytes();
+        if one_write { let mut m = reqb.clone(); m.extend_from_slice(b"hello\n"); let _ = stdin.write_all(&m); let _ = stdin.flush(); }
+        else { let _ = stdin.write_all(&reqb); let _ = stdin.flush(); std::thread::sleep(Duration::from_millis(500)); let _ = stdin.write_all(b"hello\n"); let _ = stdin.flush(); }
+        let (tx, rx) = std::sync::mpsc::channel::<Vec<u8>>();
+        std::thread::spawn(move || { let mut all = Vec::new(); let mut b = [0u8; 256]; loop { match stdout.read(&mut b) { Ok(0) | Err(_) => break, Ok(n) => { all.extend_from_slice(&b[..n]); let _ = tx.send(all.clone()); } } } });
+        let want = b"{}\0UP:hello\n".to_vec();
+        let mut got = Vec::new();
+        let t0 = std::time::Instant::now();
+        while t0.elapsed() < Duration::from_secs(6) && got.len() < want.len() {
+            if let Ok(v) = rx.recv_timeout(Duration::from_millis(200)) { got = v; }
+        }
+        drop(stdin);
+        let _ = child.kill(); let _ = child.wait();
+        if got != want {
+            found.entry(class).or_insert(json!({"service": if class == "close-drain" { "answers `UP:<line>` and closes the connection at once" } else { "answers `UP:<line>` and waits for the peer to close" }, "client_sent": if one_write { "<upgrade request>\\0hello\\n in one write" } else { "<upgrade request>\\0, 0.5 s later hello\\n" },
+                "client_received": String::from_utf8_lossy(&got), "expected": "{}\\0UP:hello\\n", "peer_saw": seen.lock().unwrap().iter().map(|(a, b)| format!("{}: {}", a, b)).collect::<Vec<_>>()}));
+        }
+    }
+
         seen.lock().unwrap().clear();
         if let Ok(mut child) = std::process::Command::new(&bin).arg("bridge").arg("--connect").arg(format!("unix:{}", sock.display()))
             .stdin(std::process::Stdio::piped()).stdout(std::process::Stdio::piped()).stderr(std::process::Stdio::piped()).spawn() {
@@ -1582,7 +1627,7 @@ fn search_bridge(obs: &[&str]) {
             emit(ob, f.is_some(), explored, f.cloned().unwrap_or(Value::Null));
             continue;
         }
-        let class = match *ob { "C18.relay" | "C18.copy" => "relay", "C18.request" => "request", "C18.getinfo" => "getinfo", "C18.oneway" => "oneway", _ => "none" };
+        let class = match *ob { "C18.relay" | "C18.copy" => "relay", "C18.request" => "request", "C18.getinfo" => "getinfo", "C18.oneway" => "oneway", "C18.upgrade-forward" | "C18.flush" => "upgrade-forward", "C18.close-drain" => "close-drain", _ => "none" };
         let f = found.get(class).or_else(|| found.get("relay")).or_else(|| found.get("request")).or_else(|| found.get("getinfo")).or_else(|| found.get("oneway")).or_else(|| found.get("exit"));
         emit(ob, f.is_some(), explored, f.cloned().unwrap_or(Value::Null));
     }
@@ -2284,7 +2329,7 @@ fn main() {
     if m("C03.info") { search_info_dups("C03.info"); }
     let cli: Vec<&str> = ["C20.split", "C20.status", "C20.print", "C20.no-panic"].iter().cloned().filter(|o| m(o)).collect();
     if !det && !cli.is_empty() { search_cli(&cli); }
-    let br: Vec<&str> = ["C18.relay", "C18.copy", "C18.request", "C18.getinfo", "C18.oneway", "C18.no-panic"].iter().cloned().filter(|o| m(o)).collect();
+    let br: Vec<&str> = ["C18.relay", "C18.copy", "C18.request", "C18.getinfo", "C18.oneway", "C18.no-panic", "C18.upgrade-forward", "C18.flush", "C18.close-drain"].iter().cloned().filter(|o| m(o)).collect();
     if !det && !br.is_empty() { search_bridge(&br); }
     let act: Vec<&str> = ["C16.pre-exec-safe", "C16.activation-fd", "C16.activation-env"].iter().cloned().filter(|o| m(o)).collect();
     if !det && !act.is_empty() { search_activation(&act); }
